@@ -2074,6 +2074,14 @@ class FileBuilder:
             cache_file_created_dirs = self._make_dirs(
                 os.path.dirname(cache_filename))
 
+            # Reserve the directory for the duration of the build, as for an
+            # output file. Otherwise, in later builds, we would regard a
+            # directory we created for the cache file as (virtually) removed,
+            # and build_file* would be willing to replace it with a file,
+            # moving the cache file out of the way.
+            self._build_dirs.started_building_file(
+                cache_filename, cache_file_created_dirs)
+
             return_value = func(*((self,) + args), **kwargs)
             self._is_finished_build = True
             norm_cased_error_created_dirs = self._set_created_dirs(
